@@ -461,16 +461,6 @@ def is_sticky_atom(a):
     return b in STICKY or b == b'|'
 
 
-def is_charwise_change(a):
-    b = a.lstrip(b'0123456789')
-    if not b.endswith(ESC):
-        return False
-    for p in (b'cw', b'C', b's', b'c$', b'cb', b'ce', b'c0', b'cl', b'cW', b'cE', b'ch'):
-        if b.startswith(p):
-            return True
-    return False
-
-
 def eval_prefix(exe, model, case, i):
     """Evaluate the property after the first i atoms.  Returns a dict:
        status: 'ok' | 'skip' | 'fail';  what, kf, observed, expected, top, left."""
@@ -534,52 +524,7 @@ def judge(exe, model, case, i, a, b, t, snaps):
         what = v
         expected = {'cursor_line': xrow, 'cursor_char_cells': list(cursor_cells(buf, xrow, xoff)), 'top': top, 'left': left}
     out.update(status='fail', what=what, observed={'rows': [cells_str(r) for r in st['cp'][:h]], 'cursor': [st['r'], st['c']]}, expected=expected)
-    out['kf'] = classify(exe, model, case, i, out, v, st2)
     return out
-
-
-def classify(exe, model, case, i, out, v, st2):
-    """narrow root-cause classifiers of the two known findings"""
-    if i == 0:
-        return None
-    rows, cols = case['rows'], case['cols']
-    h = rows - 1
-    last = bytes.fromhex(case['atoms'][i - 1])
-    buf, xrow, xoff = out['buf'], out['xrow'], out['xoff']
-    # after the forced repaint (which recomputes the steering column from the cursor) all is well?
-    v2, _, _ = explain(st2, buf, xrow, xoff, h, cols)
-    if v2 is not None:
-        return None
-    # KF-STICKY-LEFT: the window is a true window (rows ok), the cursor line is in it, but the horizontal
-    # offset is steered by the column remembered by j/k/^E/^Y, which lies beyond the cursor's character
-    if is_sticky_atom(last):
-        pos, wid = cursor_cells(buf, xrow, xoff)
-        for top, left, _ in out['st'].get('matches', []):
-            if top <= xrow < top + h and out['st']['r'] == xrow - top and pos + wid - 1 < left:
-                return 'KF-STICKY-LEFT'
-    # KF-EX-FAIL-NOREDRAW: the last command is an ex command line after which vi() did not repaint (ex_command() returned
-    # non-zero, so mod stays 0) although the command printed on / read from the screen or changed the buffer before failing
-    if last.startswith(b':') and last != b':w\n':
-        p0 = b''.join(bytes.fromhex(x) for x in case['atoms'][:i - 1])
-        r0 = run_keys(exe, case, p0 + QUIT)
-        r1 = run_keys(exe, case, p0 + last + QUIT)
-        r2 = run_keys(exe, case, p0 + last + b'\x0c' + QUIT)
-        if r0.rc == 0 and r1.rc == 0 and r2.rc == 0:
-            c0, _ = cuts(r0.out, r1.out, rows)
-            c1, _ = cuts(r1.out, r2.out, rows)
-            atom_out = r1.out[c0:c1]
-            k = atom_out.rfind(b'\r\x1b[0D\x1b[K')           # the last prompt line that was read
-            after = atom_out[k:] if k >= 0 else atom_out
-            if b'\x1b[1;1H\x1b[K' not in after:
-                return 'KF-EX-FAIL-NOREDRAW'
-    # KF-EMPTY-CHANGE: a character-wise change on an EMPTY buffer: post is empty, the input lacks its final newline, vi_input
-    # counts one line too few and vi_change calls vi_drawfix(0, row - 1, row, 0) with row one too small (0,-1,0 for one line)
-    if is_charwise_change(last):
-        p = b''.join(bytes.fromhex(x) for x in case['atoms'][:i - 1])
-        r = run_keys(exe, case, p + b':w! out\n' + QUIT, readback=['out'])
-        if r.files.get('out') == b'':
-            return 'KF-EMPTY-CHANGE'
-    return None
 
 
 # --------------------------------------------------------------------------------------------
@@ -736,7 +681,7 @@ def wfix_correspondence(ctx, model, cases, results):
             continue
         c = cases[ci]
         last = bytes.fromhex(c['atoms'][i - 1])
-        if not is_plain_motion(last) or is_sticky_atom(last) or last.endswith(b'|'):
+        if not is_plain_motion(last):
             continue
         h, cols = c['rows'] - 1, c['cols']
         # the found top/left must be the only explanation on both sides (blank screens are ambiguous)
